@@ -107,9 +107,28 @@ GrtFailed(e) ==      \* [gv, it = [ok, t], cv = R, back = [ok, gv]]
   \cup (IF e.cv.ok /\ CtyMatchDeep(e.cv.val, ToCtyRef(e.gv)) THEN {} ELSE IF NonNFC(e.gv) THEN {"C18.RoundTripExact.NonNFCString"} ELSE {"C18.ToCtyIsRef"})
   \cup (IF e.cv.ok /\ ~WellFormed(e.cv.val) THEN {"C06.WellFormed"} ELSE {})
   \cup (IF e.back.ok /\ GoEq(e.back.gv, e.gv) THEN {} ELSE IF NonNFC(e.gv) THEN {"C18.RoundTripExact.NonNFCString"} ELSE {"C18.RoundTripExact"})
+  \* (what a caller kept from an earlier decode into the same target MAY be written through by the later one: a non-nil pointer
+  \*  target is populated in place by design, so "kept" is logged but not judged)
+  \* the same decode into a target that already holds an earlier result of the same Go type reproduces the Go value just as exactly
+  \cup (IF ~Has(e, "back2") THEN {}
+        ELSE IF ~e.back2.ok /\ e.back2.fail = "panic" THEN {"C18.NoPanic"}
+        ELSE IF e.back2.ok /\ GoEq(e.back2.gv, e.gv) THEN {} ELSE IF NonNFC(e.gv) THEN {"C18.RoundTripExact.NonNFCString"} ELSE {"C18.RoundTripExact"})
+\* an object type that lacks the attribute of the family's nilable struct field: decoding it leaves that field as the target had it
+\* (by design, as for any absent attribute), so the stored Go value then legitimately depends on the target's earlier content
+RECURSIVE LacksNilableAttr(_)
+LacksNilableAttr(t) ==
+  CASE t.k = "object" -> ("a" \in DOMAIN t.as /\ "b" \notin DOMAIN t.as) \/ \E n \in DOMAIN t.as : LacksNilableAttr(t.as[n])
+    [] t.k \in {"list", "set", "map"} -> LacksNilableAttr(t.e)
+    [] t.k = "tuple" -> \E i \in 1..Len(t.es) : LacksNilableAttr(t.es[i])
+    [] OTHER -> FALSE
 GintoFailed(e) ==    \* [v, gt, r = [ok | fail]]   decoding a cty value into a Go target type
   LET v == e.v gt == e.gt IN
   (IF MarksIn(v) = {} /\ ~e.r.ok /\ e.r.fail = "panic" THEN {"C18.NoPanic"} ELSE {})
+  \* decoding into a target that already holds an earlier result: same outcome, same stored Go value as into a fresh target
+  \cup (IF ~Has(e, "r2") \/ MarksIn(v) # {} \/ LacksNilableAttr(v.ty) THEN {}
+        ELSE IF ~e.r2.ok /\ e.r2.fail = "panic" THEN {"C18.NoPanic"}
+        ELSE IF e.r.ok # e.r2.ok THEN {"C18.TargetContentIrrelevant"}
+        ELSE IF e.r.ok /\ Has(e, "got") /\ Has(e.r2, "got") /\ e.got # e.r2.got THEN {"C18.TargetContentIrrelevant"} ELSE {})
   \cup (IF e.r.ok /\ v.st = "unk" /\ ~HasCty(gt) /\ MarksIn(v) = {} THEN {"C18.RefusesUnknown"} ELSE {})
   \cup (IF e.r.ok /\ v.st = "null" /\ ~Nilable(gt) /\ MarksIn(v) = {} THEN {"C18.RefusesNullIntoNonNilable"} ELSE {})
   \cup (IF e.r.ok /\ v.st = "k" /\ v.ty.k \notin ShapeR(gt) /\ MarksIn(v) = {} THEN {"C18.RefusesShapeMismatch"} ELSE {})
